@@ -9,6 +9,7 @@
     statements for it carry [not_pinned] and the excluded case is refuted by a witness (open finding).
     [tag_ok] is the domain of the statement (decidable, the same check the extracted oracle performs). *)
 From Coq Require Import ZArith Bool String List.
+Require NixV.Gen.GenAccess NixV.Access.AccessBridgeModels.
 Require Import NixV.Base.Prelude NixV.Base.F64 NixV.Gen.GenDimensions.
 Require Import NixV.Access.Retrieval NixV.Access.RetrievalSpec NixV.Access.RetrievalAxis NixV.Access.RetrievalDomain
                NixV.Access.RetrievalAssemble NixV.Access.RetrievalTag NixV.Access.RetrievalOracle
@@ -157,6 +158,13 @@ Example tagged_oob_nonvacuous :
                                 (tag_wants ex_tag_far ex_array) off cnt.
 Proof. exact RetrievalClosed.tagged_oob_nonvacuous. Qed.
 Print Assumptions tagged_oob_nonvacuous.
+
+(** The window test applied to every retrieved region is the code regenerated from src/util/dataAccess.cpp on this run *)
+Theorem C05_window_test_is_generated : forall shape position count, (List.length shape < 200)%nat ->
+  NixV.Gen.GenAccess.positionAndExtentInData position count shape
+  = Ok (Retrieval.positionAndExtentInData shape position count).
+Proof. exact NixV.Access.AccessBridgeModels.retrieval_extent_test_is_generated. Qed.
+Print Assumptions C05_window_test_is_generated.
 
 (** OPEN OBLIGATION while the defects of DESIGN section 9 items 4, 19, 28, 31 are in the tree: the behaviour the
     extracted driver replays against the library is the repaired one.  Holds once the fix: commits have landed and
